@@ -212,6 +212,7 @@ class Endpoint:
         else:
             self.respins = 0
         g = max(self.to_global(t), self.k.now) + lateness
+        self.timer_armed_local = self.now()
         self.timer_deadline = t
         self.timer_ev = self.k.at(g, self._on_timer, tag="timer:" + self.name)
 
@@ -233,6 +234,8 @@ class Endpoint:
         self.last_fired_deadline_now = now
         self.k.trace("timer", self.name, "%.6f" % (now - deadline))
         self.sim.last_timer_lateness[self.name] = now - deadline
+        # lateness the HARNESS injected: measured from the later of (deadline, moment it was asked for)
+        self.sim.last_timer_injected[self.name] = now - max(deadline, self.timer_armed_local)
         self.api("handle_timer", now)
         self.pump()
 
@@ -408,6 +411,16 @@ class SimNetwork:
             self.in_flight += 1
             self.k.at(self.k.now + base, self._arrive, s, 0, tag="net")
 
+    def _arrive_junk(self, d):
+        ep = self.routes.get(d.dst)
+        if ep is None:
+            return
+        self.k.trace("arrive-junk", ep.name, d.id, len(d.data))
+        try:
+            ep.on_datagram(d, 0)
+        except EndpointBroken:
+            pass
+
     def _arrive(self, d, copy_index):
         self.in_flight -= 1
         ep = self.routes.get(d.dst)
@@ -469,6 +482,7 @@ class TransportSim:
         self.n_datagrams = 0
         self.n_events = Counter()
         self.last_timer_lateness = {}
+        self.last_timer_injected = {}
         self.timer_stream = chooser.stream("timer")
         self.script_stream = chooser.stream("script")
         self.late_fired = 0
@@ -670,6 +684,17 @@ class TransportSim:
         from aioquic.quic.connection import QuicConnection
 
         data = dgram.data
+        if self.profile.get("accept_any_first") and getattr(dgram, "sender", "") == "junk":
+            # Sans-IO contract: ANY datagram may be the first one handed to a server connection
+            # (the connection, not the front-end, must cope); ODCID from the header when there is one
+            odcid = bytes(8)
+            if len(data) >= 7 and (data[0] & 0x80) and data[5] <= 20 and len(data) >= 6 + data[5]:
+                odcid = data[6:6 + data[5]]
+            ep.conn = QuicConnection(configuration=ep.config, original_destination_connection_id=odcid,
+                                     **self.profile.get("server_kwargs", {}))
+            self.k.trace("server-created-by-junk", odcid.hex())
+            self._post_create(ep)
+            return True
         if len(data) < 1200 or not (data[0] & 0x80) or len(data) < 7:
             return False
         version = int.from_bytes(data[1:5], "big")
